@@ -74,6 +74,21 @@ func collect() {
 	methodSource("s/swarmutil", "Queue", "Receive", "src_queue_receive")
 	methodSource("s/swarmutil", "Queue", "Deliver", "src_queue_deliver")
 	methodSource("s/swarmutil", "Queue", "Close", "src_queue_close")
+	methodSource("s/swarmutil", "Queue", "DeliverVec", "src_queue_delivervec")
+	methodSource("s/swarmutil", "Queue", "Purge", "src_queue_purge")
+	methodSource("p/p2pke", "", "parseInitHello", "src_ke_parse_ih")
+	methodSource("p/p2pke", "", "newTimer", "src_ke_newtimer")
+	methodSource("p/p2pke", "Timer", "Reset", "src_ke_timer_reset")
+	methodSource("p/p2pke", "Timer", "Stop", "src_ke_timer_stop")
+	methodSource("p/mbapp", "ask", "await", "src_mb_askawait")
+	methodSource("p/mbapp", "ask", "abort", "src_mb_askabort")
+	methodSource("s/wlswarm", "swarm", "Receive", "src_wl_receive")
+	methodSource("s/wlswarm", "swarm", "Tell", "src_wl_tell")
+	methodSource("s/wlswarm", "asker", "ServeAsk", "src_wl_serveask")
+	methodSource("s/wlswarm", "asker", "Ask", "src_wl_ask")
+	methodSource("p/kademlia", "", "DistanceCmp", "src_kad_distancecmp")
+	methodSource("p/kademlia", "", "DistanceLz", "src_kad_distancelz")
+	methodSource("p/kademlia", "", "LeadingZeros", "src_kad_leadingzeros")
 
 	// C02 / C03 / C06: P2PKE constants and the readiness guards as truth tables
 	constInt("p/p2pke", "MaxNonce", "ke_max_nonce")
